@@ -285,13 +285,20 @@ func oracleEnded(h History, res runResult) []failure {
 // C16: a cleanup call keeps exactly the bound sessions and the pending halves not older than its cut-off.
 func oracleCleanup(h History, res runResult) []failure {
 	var fs []failure
+	openedAt := map[string]int{} // session -> op index at which it appeared in the correlator
 	for i, st := range res.Steps {
+		for sid := range st.Post.Sess {
+			if _, was := st.Pre.Sess[sid]; !was {
+				openedAt[sid] = i
+			}
+		}
 		o := h.Ops[i]
 		switch o.Kind {
 		case "clean_sess":
 			for sid, u := range st.Pre.Sess {
 				_, kept := st.Post.Sess[sid]
-				old := u.Added < 2*o.Cut
+				// the session arrived during op openedAt[sid]; the cut-off is the boundary before op o.Cut
+				old := openedAt[sid] < o.Cut
 				switch {
 				case u.LoginID >= 0 && !kept:
 					fs = append(fs, failure{"cleanup:correlated-session-discarded", fmt.Sprintf("op %d: cleanup discarded correlated session %s", i, sid), map[string]any{"op": i}})
